@@ -1,0 +1,5 @@
+//go:build !verif
+
+package gohlslib
+
+func verifPoint(_ string, _ any, _ any) {}
